@@ -729,15 +729,17 @@ def watermark_window(args):
     base = tlc.scratch_dir('vww')
     try:
         L = gen.Layout(rng)
-        L.dirs = ['', 'sub']
+        # (directory names that contain a Manifest name: a rename must touch the last component only)
+        sd = rng.choice(['sub', 'sub', 'Manifest.d', 'Manifests', 'x/Manifest.gz.bak', 'Manifest.xz.d'])
+        L.dirs = [''] + (['x'] if sd.startswith('x/') else []) + [sd]
         comp = rng.choice(gen.COMPS)
-        smf = 'sub/Manifest' + ('' if comp == 'plain' else '.' + comp)
+        smf = sd + '/Manifest' + ('' if comp == 'plain' else '.' + comp)
         L.mf['Manifest'] = []
         L.mf[smf] = []
         hs = rng.choice(HASHSETS)
         names = rng.sample(['żółć', 'Ünï', '😀', 'naïve-π.txt', 'плюс', 'a', 'b.txt', '日本'], rng.randrange(2, 6))
         for n in names:
-            p = 'sub/' + n
+            p = sd + '/' + n
             L.files[p] = ('content of ' + n).encode('utf8')
             L.add_file_entry(smf, p, L.files[p], 'DATA', hs)
         L.files['top.txt'] = b'top'
@@ -881,6 +883,12 @@ def self_above(args):
         if rng.random() < 0.5:
             rng.shuffle(L.mf[mmf])
         L.write(root)
+        opts_wm = rng.choice([None, 0, 60, 100000])
+        opts_fmt = rng.choice(['gz', 'xz', 'bz2'])
+        if comp == 'plain' and opts_wm is not None and rng.random() < 0.4:
+            # the name the middle Manifest would take when compressed is taken by a dangling symlink: nothing
+            # may be written through it
+            os.symlink(rng.choice(['blob', '../blob2', 'nowhere/x']), os.path.join(root, mmf + '.' + opts_fmt))
         edits = []
         cands = sorted(p for p in L.files if p.startswith(low + '/'))
         for p in rng.sample(cands, rng.randrange(1, len(cands) + 1)):
@@ -898,7 +906,7 @@ def self_above(args):
             edits.append({'m': 'stray', 'p': low + '/new file'})
         opts = {'hashes': hs if rng.random() < 0.7 else rng.choice(HASHSETS), 'sub': rng.choice([low, low, mid, '']),
                 'sort': rng.choice([None, True, False]), 'force': False,
-                'wm': rng.choice([None, 0, 60, 100000]), 'fmt': rng.choice(['gz', 'xz', 'bz2']), 'profile': 'default'}
+                'wm': opts_wm, 'fmt': opts_fmt, 'profile': 'default'}
         if opts['wm'] is None:
             opts['fmt'] = None
         namer = fm.Namer()
